@@ -491,10 +491,43 @@ class Writer:
         return None
 
     def while_count(self, n):
-        txt = tir.pretty(n["body"])
-        if "(pos Lt actual_size)" in txt and "pos AddAssign= 512" in txt:
+        if stepping_loop(n, self.bodies[-1] if self.bodies else None, 512) is not None:
             return Poly.atom("GECKO_BLOCKS")
         raise Unsupported(n, "writer while-loop outside the fragment")
+
+
+def stepping_loop(loop, fn_body, step):
+    """`while pos < LIMIT { .. pos advances by step exactly once .. }`: returns (pos binding id, the advancing node) or None.
+    The advance is `pos += step` or `pos = e` with e equal to pos + step (through immutable lets)."""
+    import linear
+    inner = L.strip_try(loop["body"])
+    if inner.get("k") == "Block":
+        inner = L.strip_try(inner.get("tail") or {})
+    if inner.get("k") != "If" or inner["cond"].get("k") == "LetCond":
+        return None
+    c = strip(inner["cond"])
+    if not (c.get("k") == "Binary" and c.get("op") in ("Lt", "Gt")):
+        return None
+    pv = strip(c["l"] if c["op"] == "Lt" else c["r"])
+    if pv.get("k") != "Path" or pv.get("res") != "local":
+        return None
+    pid, pname = pv.get("id"), pv.get("name")
+    env = tir.LetEnv(fn_body) if fn_body is not None else tir.LetEnv(loop)
+    adv = []
+    for x in tir.walk(inner["then"]):
+        if x.get("k") == "AssignOp" and x.get("op") in ("Add", "AddAssign") and strip(x["l"]).get("id") == pid:
+            adv.append(x if tir.lit_int(x["r"]) == step else None)
+        elif x.get("k") == "AssignOp" and strip(x["l"]).get("id") == pid:
+            adv.append(None)
+        elif x.get("k") == "Assign" and strip(x["l"]).get("id") == pid:
+            try:
+                f = linear.lin(env.resolve(x["r"]))
+                adv.append(x if {k: v for k, v in f.items() if v} == {pname: 1, "": step} else None)
+            except linear.NonLinear:
+                adv.append(None)
+    if len(adv) != 1 or adv[0] is None:
+        return None
+    return pid, adv[0]
 
 
 def a_plus(ind, a, b):
